@@ -72,6 +72,12 @@ func NewFileCache[MetadataT any](cfg *config.Config, rootDir string, maxCacheSiz
 			defer c.mu.RUnlock()
 			return len(c.entriesMetadata)
 		},
+		getMetadata: func(key CacheKey) (*EntryMetadata[MetadataT], bool) {
+			c.mu.RLock()
+			defer c.mu.RUnlock()
+			meta, ok := c.entriesMetadata[key]
+			return meta, ok
+		},
 		removeEntry: func(key CacheKey) error {
 			return c.ensureRemove(key)
 		},
